@@ -477,6 +477,10 @@ def valid_design_one(rng, i, strand):
         # a background deletion that removes an end of a targeton or of a region leaves nothing to design there: not a valid design
         # (nor, since the extension lengths are kept as lengths in the background coordinate system, one inside region 1 or 3)
         if not d.get('bg') or (bg.lift_design(d) is not None and not _indel_in_flank(d)):
+            if d.get('pam') and rng.random() < 0.3:
+                # the PAM VCF also lists an edit of a guide that no targeton selects, at the position of a selected one: still valid
+                e = rng.choice(d['pam'])
+                d['pam'].append(dict(e, sgrna='sgUnused', alt=rng.choice([x for x in 'ACGT' if x not in (e['ref'].upper(), e['alt'].upper())])))
             if i % 5 == 0:
                 # the same design once more on a second contig (its own gene, PAM edits, custom and background records): still valid
                 d['extra_contigs'] = {}
